@@ -688,11 +688,31 @@ Proof.
   destruct (Rcompare_spec 2 (B2R 53 1024 s)); split; intros; try reflexivity; try discriminate; lra.
 Qed.
 
-Lemma build_float64_lt2 (e : Z) (s : f64) : fin s -> (BR s < 2)%R ->
+(* s < 1, decided on finite floats *)
+Lemma flt_one (s : f64) : fin s -> (flt s f64_one = true <-> (BR s < 1)%R).
+Proof.
+  assert (F1 : fin f64_one) by reflexivity.
+  assert (R1 : BR f64_one = 1%R) by (unfold f64_one, f64_of_bits; cbn; unfold F2R; cbn; lra).
+  unfold flt, fcmp, b64_compare. intros Hs.
+  rewrite (Binary.Bcompare_correct 53 1024 s f64_one Hs F1). rewrite R1.
+  destruct (Rcompare_spec (B2R 53 1024 s) 1); split; intros; try reflexivity; try discriminate; lra.
+Qed.
+
+Lemma build_float64_lt2 (e : Z) (s : f64) : fin s -> (1 <= BR s < 2)%R ->
   build_float64 e s = build_float64_raw e s.
 Proof.
-  intros Fs Hs. unfold build_float64. destruct (fle c_two s) eqn:E; [|reflexivity].
-  apply (fle_two s Fs) in E. lra.
+  intros Fs Hs. unfold build_float64. destruct (fle c_two s) eqn:E.
+  - apply (fle_two s Fs) in E. lra.
+  - destruct (flt s f64_one) eqn:E1; [|reflexivity]. apply (flt_one s Fs) in E1. lra.
+Qed.
+
+(* the repaired case F11: a significand below 1 counts as 1 *)
+Lemma build_float64_lt1 (e : Z) (s : f64) : fin s -> (BR s < 1)%R ->
+  build_float64 e s = build_float64_raw e f64_one.
+Proof.
+  intros Fs Hs. unfold build_float64. destruct (fle c_two s) eqn:E.
+  - apply (fle_two s Fs) in E. lra.
+  - rewrite (proj2 (flt_one s Fs) Hs). reflexivity.
 Qed.
 
 Lemma build_float64_ge2 (e : Z) (s : f64) : fin s -> (2 <= BR s)%R ->
@@ -735,7 +755,7 @@ Lemma build_float64_normal (e : Z) (s : f64) : -1022 <= e <= 1023 -> fin s -> (1
   fin (build_float64 e s) /\ BR (build_float64 e s) = (BR s * bpow radix2 e)%R /\
   pos_normal (build_float64 e s).
 Proof.
-  intros He Fs Bs. rewrite (build_float64_lt2 e s Fs (proj2 Bs)).
+  intros He Fs Bs. rewrite (build_float64_lt2 e s Fs Bs).
   exact (build_float64_raw_normal e s He Fs Bs).
 Qed.
 
@@ -757,7 +777,7 @@ Lemma build_float64_saturates (e : Z) (s : f64) : 1023 < e -> build_float64 e s 
 Proof.
   intros He. unfold build_float64. destruct (fle c_two s).
   - apply build_float64_raw_saturates. lia.
-  - apply build_float64_raw_saturates. exact He.
+  - destruct (flt s f64_one); apply build_float64_raw_saturates; exact He.
 Qed.
 
 (* ... and at e = 1023 for a finite significand that is at least 2 *)
@@ -772,7 +792,7 @@ Lemma build_float64_roundtrip (x : f64) : pos_normal x ->
   build_float64 (x_exp x) (sp1_of x) = x.
 Proof.
   intros Hx. destruct (decompose_R x Hx) as (_ & _ & _ & _ & Fs & Ms & _).
-  rewrite (build_float64_lt2 _ _ Fs (proj2 Ms)).
+  rewrite (build_float64_lt2 _ _ Fs Ms).
   destruct (decompose x Hx) as (mx & ex & H & H' & -> & Hm & He & Hb & Hge & Hgs).
   unfold sp1_of. rewrite Hgs, (x_exp_finite mx ex H Hm).
   rewrite (build_float64_raw_bits (ex + 52) mx H' ltac:(lia) Hm).
